@@ -1,0 +1,180 @@
+//go:build verif
+
+package aggregator
+
+// Verification hook (build tag `verif` only): canonical, sorted dump of the in-memory
+// aggregator context. Read-only; no production code path calls it.
+
+import (
+	"fmt"
+	"math/big"
+	"sort"
+	"strings"
+	"time"
+
+	"github.com/ExocoreNetwork/exocore/x/oracle/keeper/common"
+)
+
+func verifBig(b *big.Int) string {
+	if b == nil {
+		return "nil"
+	}
+	return b.String()
+}
+
+func verifTS(s string) string {
+	if s == "" {
+		return "-"
+	}
+	t, err := time.ParseInLocation("2006-01-02 15:04:05", s, time.UTC)
+	if err != nil {
+		return "?" + strings.ReplaceAll(s, " ", "_")
+	}
+	return fmt.Sprint(t.Unix())
+}
+
+// VerifDump renders the context. `name` maps validator identifiers (consensus-address strings,
+// creator bech32 strings, and filter keys = creator+sourceID) to canonical names; sorting is done
+// on the mapped names so that the dump does not depend on key material.
+func (agc *AggregatorContext) VerifDump(name func(string) string) string {
+	if agc == nil {
+		return "AGC:nil"
+	}
+	var b strings.Builder
+	if agc.params == nil {
+		b.WriteString("P:nil")
+	} else {
+		p := agc.params
+		fmt.Fprintf(&b, "P:%d,%d,%d,%d,%d,%d", p.MaxNonce, p.ThresholdA, p.ThresholdB, p.MaxDetId, int32(p.Mode), p.MaxSizePrices)
+		for i, f := range p.TokenFeeders {
+			if i == 0 {
+				continue
+			}
+			fmt.Fprintf(&b, ";%d:%d,%d,%d,%d,%d,%d", i, f.TokenID, f.RuleID, f.StartRoundID, f.StartBaseBlock, f.Interval, f.EndBlock)
+		}
+	}
+	fmt.Fprintf(&b, "|G:%d,%d,%d,%d", common.MaxNonce, common.ThresholdA, common.ThresholdB, common.MaxDetID)
+	vs := make([]string, 0, len(agc.validatorsPower))
+	for k, v := range agc.validatorsPower {
+		vs = append(vs, name(k)+"="+verifBig(v))
+	}
+	sort.Strings(vs)
+	fmt.Fprintf(&b, "|V:%s|T:%s", strings.Join(vs, ","), verifBig(agc.totalPower))
+	ids := make([]uint64, 0, len(agc.rounds))
+	for k := range agc.rounds {
+		ids = append(ids, k)
+	}
+	sort.Slice(ids, func(i, j int) bool { return ids[i] < ids[j] })
+	b.WriteString("|R:")
+	for i, k := range ids {
+		r := agc.rounds[k]
+		if i > 0 {
+			b.WriteString(";")
+		}
+		fmt.Fprintf(&b, "%d:%d,%d,%d", k, r.basedBlock, r.nextRoundID, int32(r.status))
+	}
+	ids = ids[:0]
+	for k := range agc.aggregators {
+		ids = append(ids, k)
+	}
+	sort.Slice(ids, func(i, j int) bool { return ids[i] < ids[j] })
+	b.WriteString("|W:")
+	for i, k := range ids {
+		if i > 0 {
+			b.WriteString(";")
+		}
+		fmt.Fprintf(&b, "%d:", k)
+		b.WriteString(agc.aggregators[k].verifDump(name))
+	}
+	return b.String()
+}
+
+func (w *worker) verifDump(name func(string) string) string {
+	if w == nil {
+		return "nil"
+	}
+	var b strings.Builder
+	fmt.Fprintf(&b, "{%v,%s,%d}", w.sealed, w.price, w.decimal)
+	if w.f == nil {
+		b.WriteString("{F:nil}")
+	} else {
+		var ns, ss []string
+		for k, s := range w.f.validatorNonce {
+			ns = append(ns, name(k)+"="+strings.Trim(fmt.Sprint(sliceOf(s)), "[]"))
+		}
+		for k, s := range w.f.validatorSource {
+			ss = append(ss, name(k)+"="+strings.Join(sliceOfS(s), " "))
+		}
+		sort.Strings(ns)
+		sort.Strings(ss)
+		fmt.Fprintf(&b, "{F:%d,%d N:%s S:%s}", w.f.maxNonce, w.f.maxDetID, strings.Join(ns, ","), strings.Join(ss, ","))
+	}
+	if w.c == nil {
+		b.WriteString("{C:nil}")
+	} else {
+		srcs := make([]uint64, 0)
+		for k := range w.c.deterministicSource {
+			srcs = append(srcs, k)
+		}
+		sort.Slice(srcs, func(i, j int) bool { return srcs[i] < srcs[j] })
+		fmt.Fprintf(&b, "{C:%d,%s", w.c.validatorLength, verifBig(w.c.totalPower))
+		for _, sID := range srcs {
+			rl := w.c.deterministicSource[sID]
+			fmt.Fprintf(&b, " %d/%d/%d:[", sID, cap(rl.roundPricesList), rl.roundPricesCount)
+			for i, r := range rl.roundPricesList {
+				if i > 0 {
+					b.WriteString(";")
+				}
+				fmt.Fprintf(&b, "%s/%s/%s/", r.detID, verifBig(r.price), verifTS(r.timestamp))
+				for j, pp := range r.prices {
+					if j > 0 {
+						b.WriteString(",")
+					}
+					fmt.Fprintf(&b, "%s@%s", verifBig(pp.price), verifBig(pp.power))
+				}
+			}
+			b.WriteString("]")
+		}
+		b.WriteString("}")
+	}
+	if w.a == nil {
+		b.WriteString("{A:nil}")
+	} else {
+		a := w.a
+		var ds []string
+		srcs := make([]uint64, 0)
+		for k := range a.dsPrices {
+			srcs = append(srcs, k)
+		}
+		sort.Slice(srcs, func(i, j int) bool { return srcs[i] < srcs[j] })
+		for _, k := range srcs {
+			ds = append(ds, fmt.Sprintf("%d=%s", k, a.dsPrices[k]))
+		}
+		fmt.Fprintf(&b, "{A:%s,%s,%s ds:%s", verifBig(a.finalPrice), verifBig(a.reportPower), verifBig(a.totalPower), strings.Join(ds, ","))
+		for _, r := range a.reports {
+			fmt.Fprintf(&b, " %s/%s/%s/", name(r.validator), verifBig(r.power), verifBig(r.price))
+			srcs = srcs[:0]
+			for k := range r.prices {
+				srcs = append(srcs, k)
+			}
+			sort.Slice(srcs, func(i, j int) bool { return srcs[i] < srcs[j] })
+			for j, k := range srcs {
+				p := r.prices[k]
+				if j > 0 {
+					b.WriteString(",")
+				}
+				dr := p.detRoundID
+				if dr == "" {
+					dr = "-"
+				}
+				fmt.Fprintf(&b, "%d:%s:%d:%s:%s", k, verifBig(p.price), p.decimal, verifTS(p.timestamp), dr)
+			}
+		}
+		b.WriteString("}")
+	}
+	return b.String()
+}
+
+func sliceOf(s *common.Set[int32]) []int32 { return s.VerifItems() }
+
+func sliceOfS(s *common.Set[string]) []string { return s.VerifItems() }
